@@ -114,6 +114,9 @@ class FailFamily(common.Family):
     cfg['fail_p'] = p
     cfg['fail_i'] = rng.randrange(0, cfg['items'][p] + 1)
     cfg['fail_type'] = rng.choice(EXC_TYPES)
+    # A consumer that sees the failure may issue a plain stop on its way out,
+    # as MultiplexIterator.__next__ does; the others must still see the failure.
+    cfg['stop_on_error'] = rng.random() < 0.4
     return cfg
 
   def drive(self, cfg, sim):
@@ -149,8 +152,14 @@ class FailFamily(common.Family):
       except Exception as e:  # pylint: disable=broad-exception-caught
         prod[p] = ['exc', type(e).__name__, str(e)]
 
-    cs = [threading.Thread(target=_consumer, args=(q, cfg, c, got, ends),
-                           name=f'cons{c}') for c in range(C)]
+    def consume(c):
+      _consumer(q, cfg, c, got, ends)
+      if cfg.get('stop_on_error') and ends[c] and ends[c][0] == 'exc':
+        sim.count('fault:stop_after_failure')
+        q.maybe_stop()
+
+    cs = [threading.Thread(target=consume, args=(c,), name=f'cons{c}')
+          for c in range(C)]
     pool = None
     if cfg['pool']:
       pool = futures.ThreadPoolExecutor(max_workers=P, thread_name_prefix='pp')
